@@ -26,7 +26,7 @@ CFG = dict(
                  "multibyte integer changes the extent of the CRC-covered region: the 2^-32 case)",
                  "C04_sound_xz assumes the block payload decoder only consumes input (returns a suffix of its source)",
                  "LZIPReaderMT is not covered by this check",
-                 "perfect in-memory source (I/O faults are C05's business); /repo carries the fix patches repo-patches/41..49 "
+                 "perfect in-memory source (I/O faults are C05's business); /repo carries the fix patches /repo 90fabde..49 "
                  "(on the historical code C04 is false: C04_magic_lzip_refuted)",
                  "an output budget (cap) cuts off runs in which damaged size fields make the decoder produce more than 2x+1024 bytes; "
                  "such runs are reported as CAP on both sides and have no verdict"],
